@@ -25,7 +25,7 @@ ASSUMPTIONS = [
 # direct clauses reported under a clause of the property
 DIRECT_CLAUSE = {"resend_before_dispatch": "fifo"}   # a queued command must not overtake the retransmissions of a resumed session
 
-FAMILIES = ["r-", "basic", "d8-", "d15-", "resub-sorted", "d17-", "d16-", "s5-", "a-start", "s1-", "s2-", "s3-", "s4-", "s6-", "s7", "b-", "b2-",
+FAMILIES = ["r-", "t-", "basic", "d8-", "d15-", "resub-sorted", "d17-", "d16-", "s5-", "a-start", "s1-", "s2-", "s3-", "s4-", "s6-", "s7", "b-", "b2-",
             "b3-", "b4-", "many-", "large-", "rand-", "conc-"]
 
 
